@@ -29,6 +29,8 @@ What the code does around a node `v` (facts read off `_create_inverse_gradient_m
 
 Numbers are rationals; every binary64 value is one.  Sub-cells are indexed `0 … m-1`.
 -/
+import PorepyVerif.C11.Model
+
 namespace PorepyVerif.C13
 
 abbrev Vec (d : Nat) := Fin d → Rat
@@ -165,5 +167,275 @@ def Row.withLinData (lam mu : Rat) (A : Mat d) (b : Vec d) : Row d → Row d
 def Row.isElim : Row d → Bool
   | .neumann _ _ _ e => e
   | _ => false
+
+/-! ## `mpsa2d`: the whole 2-D discretisation
+
+Analogue of C11's `mpfa2d` for vector unknowns.  The grid as the real code sees it (`face_nodes`,
+`cell_faces` given per face as its cells with orientation sign, ascending in the cell index; the
+geometry arrays; `cell_volumes / num_cell_nodes`; boundary type per face; η, λ, μ).  Per node `v` the
+model builds the interaction region itself (faces containing `v`, cells of those faces, local
+numbering = ascending global index, the `_eliminate_ncasym` flag from the counts), assembles the
+local matrix in the unknowns `(G k 0 0, G k 0 1, G k 1 0, G k 1 1)_k`, solves it with a left inverse
+obtained by exact Gauss–Jordan elimination (C11's `leftInverse`) that is NOT trusted but re-checked
+(`L·A = I`, C11's `leftInvOK`), and adds the sub-face results up per face (`hf2f`; mean for the
+displacement reconstruction). -/
+
+/-- coefficients of one sub-cell block `(G 0 0, G 0 1, G 1 0, G 1 1)` -/
+structure Blk where
+  a : Rat
+  b : Rat
+  c : Rat
+  e : Rat
+
+namespace Blk
+def toList (x : Blk) : List Rat := [x.a, x.b, x.c, x.e]
+def dot (x y : Blk) : Rat := x.a * y.a + x.b * y.b + x.c * y.c + x.e * y.e
+def smul (s : Rat) (x : Blk) : Blk := ⟨s * x.a, s * x.b, s * x.c, s * x.e⟩
+def add (x y : Blk) : Blk := ⟨x.a + y.a, x.b + y.b, x.c + y.c, x.e + y.e⟩
+end Blk
+
+def blkOf (G : Mat 2) : Blk := ⟨G 0 0, G 0 1, G 1 0, G 1 1⟩
+
+def ind (k i : Nat) : Rat := if k = i then 1 else 0
+
+/-- `(csym G n)_a` as a linear form in the block of `G` -/
+def csymB (lam mu : Rat) (n : Vec 2) (a : Fin 2) : Blk :=
+  if a = 0 then ⟨(lam + 2 * mu) * n 0, mu * n 1, 0, lam * n 0⟩
+  else ⟨lam * n 1, 0, mu * n 0, (lam + 2 * mu) * n 1⟩
+
+/-- `(casym G n)_a` as a linear form in the block of `G` -/
+def casymB (mu : Rat) (n : Vec 2) (a : Fin 2) : Blk :=
+  if a = 0 then ⟨0, 0, mu * n 1, 0⟩ else ⟨0, mu * n 0, 0, 0⟩
+
+/-- `(G x)_a` as a linear form in the block of `G` -/
+def distB (x : Vec 2) (a : Fin 2) : Blk :=
+  if a = 0 then ⟨x 0, x 1, 0, 0⟩ else ⟨0, 0, x 0, x 1⟩
+
+/-- coefficient block of sub-cell `k` in component `a` of a row -/
+def Row.coefs (R : Region 2) (a : Fin 2) : Row 2 → Nat → Blk
+  | .tractionCont i j n => fun k =>
+      Blk.add (Blk.smul (ind k i) (csymB R.lam R.mu n a)) (Blk.smul (-(ind k j)) (csymB R.lam R.mu n a))
+  | .dispCont i j xs => fun k =>
+      Blk.add (Blk.smul (ind k i) (distB (vsub xs (R.xc i)) a)) (Blk.smul (-(ind k j)) (distB (vsub xs (R.xc j)) a))
+  | .dirichlet i xs _ => fun k => Blk.smul (ind k i) (distB (vsub xs (R.xc i)) a)
+  | .neumann i n _ elim => fun k =>
+      Blk.add (Blk.smul (ind k i) (csymB R.lam R.mu n a))
+        (Blk.smul (if elim then 0 else R.vol k / sumTo R.vol R.m) (casymB R.mu n a))
+
+/-- right-hand side of component `a` of a row (everything that does not multiply a gradient) -/
+def Row.rhsAt (u : Nat → Vec 2) (a : Fin 2) : Row 2 → Rat
+  | .tractionCont _ _ _ => 0
+  | .dispCont i j _ => u j a - u i a
+  | .dirichlet i _ uD => uD a - u i a
+  | .neumann _ _ t _ => t a
+
+/-- blocks `0 … m-1` laid out one after the other -/
+def flatB (c : Nat → Blk) (m : Nat) : List Rat := (List.range m).flatMap (fun k => (c k).toList)
+
+def Region.matrix2 (R : Region 2) : C11.Mat :=
+  R.rows.flatMap (fun r => [flatB (r.coefs R 0) R.m, flatB (r.coefs R 1) R.m])
+
+def Region.rhs2 (R : Region 2) (u : Nat → Vec 2) : C11.Vec :=
+  R.rows.flatMap (fun r => [r.rhsAt u 0, r.rhsAt u 1])
+
+/-- `L` certifies that the local system of `R` has at most one solution: `L · A = I` -/
+def certOK2 (R : Region 2) (L : C11.Mat) : Bool := C11.leftInvOK (4 * R.m) L R.matrix2
+
+/-- read the sub-cell gradients back from the solution vector -/
+def unflat (y : List Rat) : Nat → Mat 2 := fun k p q => y.getD (4 * k + 2 * p.val + q.val) 0
+
+/-- indices of a row are those of sub-cells of the region -/
+def Row.idxOK (m : Nat) : Row 2 → Prop
+  | .tractionCont i j _ => i < m ∧ j < m
+  | .dispCont i j _ => i < m ∧ j < m
+  | .dirichlet i _ _ => i < m
+  | .neumann i _ _ _ => i < m
+
+structure GridS where
+  nodes : List (List Rat)
+  faceNodes : List (List Nat)
+  /-- per face: its cells with the orientation sign (`cell_faces`), ascending in the cell index -/
+  faceCells : List (List (Nat × Rat))
+  cellCenters : List (List Rat)
+  faceCenters : List (List Rat)
+  faceNormals : List (List Rat)
+  /-- `cell_volumes / num_cell_nodes` per cell -/
+  volShare : List Rat
+  isDir : List Bool
+  eta : Rat
+  lam : Rat
+  mu : Rat
+
+namespace GridS
+variable (G : GridS)
+
+def numNodes : Nat := G.nodes.length
+def numFaces : Nat := G.faceNodes.length
+def numCells : Nat := G.cellCenters.length
+def nodeAt (v : Nat) : Vec 2 := vecOfList (G.nodes.getD v [])
+def ccAt (c : Nat) : Vec 2 := vecOfList (G.cellCenters.getD c [])
+def fcAt (f : Nat) : Vec 2 := vecOfList (G.faceCenters.getD f [])
+def fnAt (f : Nat) : Vec 2 := vecOfList (G.faceNormals.getD f [])
+def fnodes (f : Nat) : List Nat := G.faceNodes.getD f []
+def fcells (f : Nat) : List (Nat × Rat) := G.faceCells.getD f []
+def dirAt (f : Nat) : Bool := G.isDir.getD f false
+def isBoundary (f : Nat) : Bool := (G.fcells f).length == 1
+def isNeu (f : Nat) : Bool := G.isBoundary f && !G.dirAt f
+/-- number of nodes (= sub-faces) of a face -/
+def nN (f : Nat) : Rat := ((G.fnodes f).length : Nat)
+
+/-- faces that contain node `v`, ascending -/
+def facesOf (v : Nat) : List Nat := (List.range G.numFaces).filter (fun f => (G.fnodes f).contains v)
+
+/-- cells of the faces around `v`, ascending and without repetition -/
+def cellsOf (v : Nat) : List Nat :=
+  (List.range G.numCells).filter (fun c => ((G.facesOf v).flatMap (fun f => (G.fcells f).map (·.1))).contains c)
+
+def loc (v c : Nat) : Nat := (G.cellsOf v).idxOf c
+
+/-- `_eliminate_ncasym`: more Neumann sub-faces than sub-cells at the node -/
+def elimAt (v : Nat) : Bool :=
+  decide ((G.cellsOf v).length < ((G.facesOf v).filter G.isNeu).length)
+
+/-- normal of a sub-face: `n_f / num_nodes(f)` -/
+def subNormal (f : Nat) : Vec 2 := fun a => (1 / G.nN f) * G.fnAt f a
+
+/-- continuity point of the sub-face of an interior face `f` at node `v` -/
+def contPt (v f : Nat) : Vec 2 := fun a => G.fcAt f a + G.eta * (G.nodeAt v a - G.fcAt f a)
+
+/-- rows contributed by the sub-face of face `f` at node `v`; `bc f` = Dirichlet value, resp. the
+    Neumann traction w.r.t. the outward normal integrated over the WHOLE face -/
+def mkRows (bc : Nat → Vec 2) (v f : Nat) : List (Row 2) :=
+  match G.fcells f with
+  | [(c, s)] =>
+      if G.dirAt f then [.dirichlet (G.loc v c) (G.fcAt f) (bc f)]
+      else [.neumann (G.loc v c) (G.subNormal f) (fun a => s * bc f a / G.nN f) (G.elimAt v)]
+  | [(c1, _), (c2, _)] =>
+      [.tractionCont (G.loc v c1) (G.loc v c2) (G.subNormal f),
+       .dispCont (G.loc v c1) (G.loc v c2) (G.contPt v f)]
+  | _ => []
+
+/-- the interaction region of node `v` -/
+def region (bc : Nat → Vec 2) (v : Nat) : Region 2 :=
+  let cs := G.cellsOf v
+  { lam := G.lam, mu := G.mu, m := cs.length,
+    vol := fun k => G.volShare.getD (cs.getD k 0) 0,
+    xc := fun k => G.ccAt (cs.getD k 0),
+    rows := (G.facesOf v).flatMap (G.mkRows bc v) }
+
+/-- cell-centre data of the sub-cells of node `v` -/
+def uLoc (u : Nat → Vec 2) (v : Nat) : Nat → Vec 2 :=
+  let cs := G.cellsOf v
+  fun k => u (cs.getD k 0)
+
+def zeroData : Nat → Vec 2 := fun _ _ => 0
+
+/-- certified left inverse of the local matrix of node `v` (the matrix does not depend on the data) -/
+def certAt (v : Nat) : Option C11.Mat :=
+  let R := G.region zeroData v
+  match C11.leftInverse R.matrix2 with
+  | none => none
+  | some L => if certOK2 R L then some L else none
+
+/-- certificates of all nodes; `none` = some interaction region is singular -/
+def certs : Option (List C11.Mat) := C11.Grid2.allSome ((List.range G.numNodes).map G.certAt)
+
+/-- per node: region with data and sub-cell gradients `unflat (L_v · rhs_v)` -/
+structure NodeSol where
+  R : Region 2
+  u : Nat → Vec 2
+  Gs : Nat → Mat 2
+
+def nodeSol (Ls : List C11.Mat) (u bc : Nat → Vec 2) (v : Nat) : NodeSol :=
+  let R := G.region bc v
+  let ul := G.uLoc u v
+  let y := C11.mulVec (Ls.getD v []) (R.rhs2 ul)
+  ⟨R, ul, unflat y⟩
+
+def firstCell (f : Nat) : Nat :=
+  match G.fcells f with
+  | (c, _) :: _ => c
+  | [] => 0
+
+/-- traction of the sub-face of `f` at `v` (discrete Hooke's law of the first side) -/
+def subTr (s : NodeSol) (v f : Nat) : Vec 2 :=
+  subTraction s.R s.Gs (G.loc v (G.firstCell f)) (G.subNormal f) (G.elimAt v && G.isNeu f)
+
+/-- reconstructed displacement on the sub-face of `f` at `v` (mean of the two sides inside) -/
+def subU (s : NodeSol) (v f : Nat) : Vec 2 :=
+  match G.fcells f with
+  | [(c, _)] => subDisp s.R s.u s.Gs (G.loc v c) (G.fcAt f)
+  | [(c1, _), (c2, _)] => fun a =>
+      (subDisp s.R s.u s.Gs (G.loc v c1) (G.contPt v f) a
+        + subDisp s.R s.u s.Gs (G.loc v c2) (G.contPt v f) a) / 2
+  | _ => fun _ => 0
+
+def sumList : List Rat → Rat
+  | [] => 0
+  | x :: xs => x + sumList xs
+
+/-- traction on face `f`: sum of its sub-face tractions (`hf2f`) -/
+def faceTraction (sol : Nat → NodeSol) (f : Nat) : Vec 2 :=
+  fun a => sumList ((G.fnodes f).map (fun v => G.subTr (sol v) v f a))
+
+/-- reconstructed displacement on face `f`: mean of its sub-face values -/
+def faceDisp (sol : Nat → NodeSol) (f : Nat) : Vec 2 :=
+  fun a => sumList ((G.fnodes f).map (fun v => G.subU (sol v) v f a)) / G.nN f
+
+/-- node solutions tabulated once (driver) -/
+def solTable (Ls : List C11.Mat) (u bc : Nat → Vec 2) : Nat → NodeSol :=
+  let tab := (List.range G.numNodes).map (G.nodeSol Ls u bc)
+  fun v => tab.getD v (G.nodeSol Ls u bc v)
+
+/-- `stress·u + bound_stress·bc` and `bound_displacement_cell·u + bound_displacement_face·bc`,
+    per face as `[t_x, t_y]`, `[u_x, u_y]` -/
+def apply (Ls : List C11.Mat) (u bc : Nat → Vec 2) : List (List Rat) × List (List Rat) :=
+  let sol := G.solTable Ls u bc
+  ((List.range G.numFaces).map (fun f => vecToList (G.faceTraction sol f)),
+   (List.range G.numFaces).map (fun f => vecToList (G.faceDisp sol f)))
+
+def unitData (k : Nat) (i : Fin 2) : Nat → Vec 2 := fun j a => if j = k ∧ a = i then 1 else 0
+
+/-- the four matrices column by column (cell columns `2c+i`: `stress`, `bound_displacement_cell`;
+    face columns `2f+i`: `bound_stress`, `bound_displacement_face`) -/
+def matrices (Ls : List C11.Mat) :
+    List (List (List Rat) × List (List Rat)) × List (List (List Rat) × List (List Rat)) :=
+  ((List.range G.numCells).flatMap (fun c => [G.apply Ls (unitData c 0) zeroData, G.apply Ls (unitData c 1) zeroData]),
+   (List.range G.numFaces).flatMap (fun f => [G.apply Ls zeroData (unitData f 0), G.apply Ls zeroData (unitData f 1)]))
+
+/-- data of the affine field `A x + b`: cell values, Dirichlet values at the face centres, Neumann
+    values = traction w.r.t. the outward normal, `sgn · σ(A) n_f` -/
+def affineBc (A : Mat 2) (b : Vec 2) (f : Nat) : Vec 2 :=
+  match G.fcells f with
+  | [(_, s)] => if G.dirAt f then affine A b (G.fcAt f) else fun a => s * mulVec (hooke G.lam G.mu A) (G.fnAt f) a
+  | _ => fun _ => 0
+
+def affineU (A : Mat 2) (b : Vec 2) : Nat → Vec 2 := fun c => affine A b (G.ccAt c)
+
+/-- well-formedness of the topology arrays (decidable) -/
+def fcOK (nc : Nat) : List (Nat × Rat) → Prop
+  | [(c, s)] => c < nc ∧ s * s = 1
+  | [(c1, _), (c2, _)] => c1 < nc ∧ c2 < nc ∧ c1 ≠ c2
+  | _ => False
+
+instance (nc : Nat) (l : List (Nat × Rat)) : Decidable (fcOK nc l) := by
+  unfold fcOK; split <;> infer_instance
+
+def WF : Prop :=
+  G.faceCells.length = G.numFaces ∧
+  (∀ l ∈ G.faceNodes, l ≠ [] ∧ ∀ v ∈ l, v < G.numNodes) ∧
+  (∀ l ∈ G.faceCells, fcOK G.numCells l) ∧
+  (∀ v < G.numNodes, sumTo (G.region zeroData v).vol (G.region zeroData v).m ≠ 0)
+
+instance : Decidable G.WF := by unfold WF; infer_instance
+
+/-- the Neumann faces are admissible for the claim on face `f`: no node of `f` has the averaged
+    part eliminated (in genuine 2-D grids elimination happens only at a corner whose two faces
+    are both Neumann, so every non-Neumann face qualifies) -/
+def noElimFace (f : Nat) : Bool := (G.fnodes f).all (fun v => !G.elimAt v)
+
+def admissible : Bool := (List.range G.numFaces).all (fun f => G.isNeu f || G.noElimFace f)
+
+end GridS
 
 end PorepyVerif.C13
